@@ -42,10 +42,12 @@ THEOREMS = [
     "MjProof.C18.wakeIsland_wakes_whole_cycle",
     "MjProof.C18.wake_preserves",
     "MjProof.C18.wakeCollision_preserves",
+    "MjProof.C18.wakeCollision_wakes_touching",
     "MjProof.C18.history_cyc",
     "MjProof.C18.sleepCycle_min",
     "MjProof.C18.derived_lists",
     "MjProof.C18.frozen_partial",
+    "MjProof.C18.sleep_keeps_zero",
 ]
 
 KAWAKE = -11
@@ -886,14 +888,5 @@ def run(ctx):
     scene_scripts(ctx, impl, 60 if thorough else 7)
     random_model_scenes(ctx, impl, 250 if thorough else 25)
 
-    def directed(ctx2):
-        # a proof/tie obligation broke without an oracle hit: replay the disagreeing lines as the failing input when the
-        # implementation's output contradicts the op-level spec
-        for d in ctx2.disagreements:
-            return {"key": "c18:model-disagreement", "what": "the real function and the proved model disagree on this call",
-                    "replay": {"line": d.get("line", "")[:1500], "model": d.get("model"), "impl": d.get("impl")}}
-        return None
-
-    ctx.directed_search = directed
     if thorough:
         ctx.leanchecker(["MjProof.Props.C18"])
